@@ -26,6 +26,14 @@ SHAPES = [
 FRAGMENTS = [") )", "42", "\"lost\"", "1 + 2", ")", "+", "'x'", "]", "} }", ", ,", "x y z", "-> .", "= =", "? :", "[ 3"]
 
 
+# statements that are not C in any reading and that the unchanged tool recognises with no rule (they start with an
+# operator or a closer and name nothing, or their brackets do not balance before the `;`): the run stops with the fatal
+# diagnostic.  (The unchanged tool does take `= a;`, `, x;`, `&& a;`, `x = ;` for statements - a recogniser that is
+# looser than C, which the property's letter allows: a rule recognises them.  They are not in the list.)
+FRAG_FATAL = ["= 5;", "+= 3;", "++;", "bar(1;", "j = (1;", "bar(1];", ");", "== 5;", "(;", "[;", "= ;", "5 +;", "1 2 3;", "*;",
+              "x = (int;", "foo(];", "a[1) = 2;", "] = 1;", "x = f(a, (b);", "t[1 = 2;"]
+
+
 def oracle_trace(res, name, src, tr, conforming=None):
     rp = {"kind": "trace", "name": name, "src": src}
     its = tr["iterations"]
@@ -120,6 +128,22 @@ def run(res, tier, br, model_ok=True, search=False):
         frag_cases.append((p.name, p.text + rng.choice(FRAGMENTS), None))
     for kind, text in faults.snippet_prefixes()[:: (1 if big else 4)]:
         frag_cases.append(("snip.c", text, None))
+    # ... and the fragments that must be fatal wherever they stand (not between a function header and its brace,
+    # where the tool reads header, fragment and brace together)
+    must_fatal = []
+    for p in progs[: (60 if big else 12)]:
+        lines = p.text.split("\n")
+        bounds = [b for b in range(p.body_start_line - 1, len(lines)) if not lines[b].startswith("{")]
+        for _ in range(10 if big else 5):
+            b = rng.choice(bounds)
+            frag = rng.choice(FRAG_FATAL)
+            prev = lines[b - 1] if b > 0 else ""
+            ind = "\t" if (prev.startswith("\t") or prev == "{") and rng.random() < 0.8 else ""
+            if b >= len(lines) - 1:
+                text = p.text + ind + frag + ("\n" if rng.random() < 0.6 else "")
+            else:
+                text = "\n".join(lines[:b] + [ind + frag] + lines[b:])
+            must_fatal.append((p.name, text, frag))
     allc = cases + frag_cases
     reqs, metas = [], []
     for name, src, conf in allc:
@@ -133,6 +157,14 @@ def run(res, tier, br, model_ok=True, search=False):
             if tr["outcome"] in ("ok", "fatal") and tr["n"] is not None and model_ok:
                 reqs.append({"op": "engine", "n": tr["n"], "debug": debug, "decisions": decisions(tr)})
                 metas.append((name, src, tr))
+    for name, text, frag in must_fatal:
+        tr = run_traced(name, text)
+        res.count("fragments", 1)
+        res.nontriv(("ff", text))
+        oracle_trace(res, name, text, tr)
+        if tr["outcome"] == "ok":
+            res.report("fragment:not-fatal", f"{name}: the fragment {frag!r} at a statement boundary is taken for a statement: the file is reported {tr.get('status')} instead of the fatal diagnostic",
+                       {"kind": "trace", "name": name, "src": text, "fragment": frag})
     for name, text, want, oid in counted:
         tr = run_traced(name, text)
         res.count("counted", 1)
@@ -187,6 +219,9 @@ def replay(rp):
     tr = run_traced(rp["name"], rp["src"])
     print("outcome:", tr["outcome"], tr.get("status"), "iterations:", [(it["decision"], it["popped"]) for it in tr["iterations"]][-12:])
     oracle_trace(res, rp["name"], rp["src"], tr)
+    if rp.get("fragment") and tr["outcome"] == "ok":
+        print("the fragment", repr(rp["fragment"]), "did not stop the run")
+        return 1
     for v in res.violations:
         print("VIOLATED:", v[0], v[1][:300])
     return 1 if res.violations else 0
